@@ -56,8 +56,34 @@ fn logt(toks: &[&str]) -> String {
     out.join(" ")
 }
 
+/// par <s1> <s2> <rounds>: two threads convert instants of two different days (s1 + i and s2 + i) at the same time, as
+/// the logger stamping "now" and a handler rendering a far expiry date do; every text is compared with the one the
+/// same call gives afterwards on one thread.  observation: par bad=<number of texts that differ>
+fn par(s1: u64, s2: u64, rounds: u64) -> String {
+    let work = move |base: u64| -> Vec<String> { (0..rounds).map(|i| iso(base + i % 7)).collect() };
+    let barrier = std::sync::Arc::new(std::sync::Barrier::new(2));
+    let b2 = barrier.clone();
+    let t = std::thread::spawn(move || {
+        b2.wait();
+        work(s2)
+    });
+    barrier.wait();
+    let r1 = work(s1);
+    let r2 = t.join().unwrap_or_default();
+    let mut bad = 0;
+    for (base, got) in [(s1, r1), (s2, r2)] {
+        for (i, g) in got.iter().enumerate() {
+            if *g != iso(base + (i as u64) % 7) {
+                bad += 1;
+            }
+        }
+    }
+    format!("par bad={bad}")
+}
+
 fn main() {
     run_lines(|toks| match toks[0] {
+        "par" => par(toks[1].parse().unwrap(), toks[2].parse().unwrap(), toks[3].parse().unwrap()),
         "logt" => logt(&toks[1..]),
         "new" => instant(toks[1].parse::<u64>().unwrap()),
         "day" => {
